@@ -64,3 +64,356 @@ def _e_functor_call(interp, args, kwargs, result):
 
 contract('monoidal.Functor.__call__', params=_p_functor_call, ensures=_e_functor_call,
          loops={0: LoopSpec(assume=_loop_assume, check=_loop_check)}, property_ids=('C04', 'C01'))
+
+
+# ---------------------------------------------------------------- the object map: type branch of monoidal.Functor.__call__
+# F on a type is DEFINED from its values on one-object types by snoc-recursion:  D(()) = (),  D(s ++ (x,)) = D(s) ++ F.ob[(x,)].
+# (1) the real branch `ob_factory().tensor(*[self.ob[type(t)(x)] for x in t])` computes D(t): the list of images is
+#     [F.ob[(t[i],)]] in order, the result is its flattening, and flat(k) == D(t[:k]) by induction on k (base and step below; L-ind);
+# (2) D is a monoid homomorphism, D(a ++ b) == D(a) ++ D(b), by snoc-induction on b (lemma functor.homomorphism).
+# world.functor_ty instantiates exactly these facts at call sites.
+from pyvc.interp import PyRaise, Unsupported      # noqa: E402
+
+
+def _D_unit(ex, F):
+    ex.assume(F.FT(T.EMPTY) == T.EMPTY)
+
+
+def _D_snoc(ex, F, s, x):
+    """the defining equation at (s, x)"""
+    ex.assume(F.FT(T.ty_concat(s, z3.Unit(x))) == T.ty_concat(F.FT(s), F.FT(z3.Unit(x))))
+
+
+def _p_functor_ty(ex):
+    ex.nth_by_parts = True
+    F = VFunctor('F')
+    t = ex.sym_ty('t')
+    ex._ft = (F, t)
+    return [F, t], {}
+
+
+def _e_functor_ty(interp, args, kwargs, result):
+    ex = interp.ex
+    F, t = ex._ft
+    n = T.ty_len(t.t)
+    flats = list(getattr(ex, '_flats', {}).values())
+    if not isinstance(result, VTy) or len(flats) != 1:
+        ex.prove('C04:F(type) is the flattening of one list of images', False)
+        return
+    fn, imgs, get = flats[0]
+    ex.prove('C04:F(t) is the flattening of the list of images', T.ty_eq(result.t, fn(imgs.length())))
+    ex.prove('C04:one image per object', imgs.length() == n)
+
+    def each():
+        k = T.fresh('k', T.IntS)
+        ex.assume(z3.And(0 <= k, k < n))
+        img = get(k)
+        x = ex.ty_at(t, k)
+        ex.prove('C04:the k-th image is F.ob of the k-th object', isinstance(img, VTy) and T.ty_eq(img.t, F.FT(z3.Unit(x.t))))
+    ex.side(each)
+
+    # flat(k) == D(t[:k]) by induction on k
+    def base():
+        _D_unit(ex, F)
+        ex.prove('C04:F(t) == D(t), base: flat(0) == D(())', T.ty_eq(fn(T.I(0)), F.FT(T.EMPTY)))
+    ex.side(base)
+
+    def step():
+        k = T.fresh('k', T.IntS)
+        ex.assume(z3.And(0 <= k, k < n))
+        x = ex.ty_at(t, k)
+        pre = T.fresh('pre_k', T.TyS)               # t[:k]
+        suf = T.fresh('suf_k', T.TyS)
+        ex.assume(t.t == T.ty_concat(pre, z3.Unit(x.t), suf))
+        ex.assume(z3.Length(pre) == k)
+        ex.assume(fn(k) == F.FT(pre))               # induction hypothesis
+        ex.flat_step(flats[0], k)
+        _D_snoc(ex, F, pre, x.t)
+        ex.prove('C04:F(t) == D(t), step: flat(k + 1) == D(t[:k + 1])',
+                 T.ty_eq(fn(k + 1), F.FT(T.ty_concat(pre, z3.Unit(x.t)))))
+    ex.side(step)
+
+
+_c = Contract('monoidal.Functor.__call__', params=_p_functor_ty, ensures=_e_functor_ty, property_ids=('C04', 'C01'))
+_c.label = 'monoidal.Functor.__call__[Ty]'
+CONTRACTS['monoidal.Functor.__call__[Ty]'] = _c
+
+
+def _lemma_homomorphism(interp):
+    ex = interp.ex
+    F = VFunctor('F')
+    a, b = z3.Const('a', T.TyS), z3.Const('b', T.TyS)
+    x = z3.Const('x', T.Ob)
+    _D_unit(ex, F)
+    ex.prove('C04:D(a ++ ()) == D(a) ++ D(())   (base)', T.ty_eq(F.FT(T.ty_concat(a, T.EMPTY)), T.ty_concat(F.FT(a), F.FT(T.EMPTY))))
+    ex.assume(F.FT(T.ty_concat(a, b)) == T.ty_concat(F.FT(a), F.FT(b)))          # induction hypothesis at b
+    _D_snoc(ex, F, T.ty_concat(a, b), x)
+    _D_snoc(ex, F, b, x)
+    ex.prove('C04:D(a ++ b ++ (x,)) == D(a) ++ D(b ++ (x,))   (step)',
+             T.ty_eq(F.FT(T.ty_concat(a, b, z3.Unit(x))), T.ty_concat(F.FT(a), F.FT(T.ty_concat(b, z3.Unit(x))))))
+
+
+from .core import lemma      # noqa: E402
+lemma('functor.homomorphism', _lemma_homomorphism, ('C04', 'C18', 'C19'))
+
+
+# ---------------------------------------------------------------- the same for biclosed.Functor (types of several objects)
+def _p_bfunctor_ty(ex):
+    ex.nth_by_parts = True
+    F = VFunctor('F', ar_factory='rigid.Diagram')
+    F.slash = True
+    t = ex.sym_ty('t')
+    ex.assume(z3.Length(t.t) > 1)
+    # a slash type is ONE object (class invariant of Over / Under, established where they are built): a longer type is none
+    ex.assume(z3.And(z3.Not(T.ty_over(t.t)), z3.Not(T.ty_under(t.t))))
+    ex._ft = (F, t)
+    return [F, t], {}
+
+
+def _e_bfunctor_ty(interp, args, kwargs, result):
+    ex = interp.ex
+    F, t = ex._ft
+    n = T.ty_len(t.t)
+    flats = list(getattr(ex, '_flats', {}).values())
+    if not isinstance(result, VTy) or len(flats) != 1:
+        ex.prove('C18:F(type of several objects) is the flattening of one list of images', False)
+        return
+    fn, imgs, get = flats[0]
+    ex.prove('C18:F(t) is the flattening of the list of images', T.ty_eq(result.t, fn(imgs.length())))
+    ex.prove('C18:one image per object', imgs.length() == n)
+
+    def step():
+        k = T.fresh('k', T.IntS)
+        ex.assume(z3.And(0 <= k, k < n))
+        x = ex.ty_at(t, k)
+        img = get(k)
+        ex.prove('C18:the k-th image is F of the k-th one-object type',
+                 isinstance(img, VTy) and T.ty_eq(img.t, F.FT(z3.Unit(x.t))))
+        pre, suf = T.fresh('pre_k', T.TyS), T.fresh('suf_k', T.TyS)
+        ex.assume(t.t == T.ty_concat(pre, z3.Unit(x.t), suf))
+        ex.assume(z3.Length(pre) == k)
+        ex.assume(fn(k) == F.FT(pre))               # induction hypothesis
+        ex.flat_step(flats[0], k)
+        ex.assume(T.ty_eq(img.t, F.FT(z3.Unit(x.t))) if isinstance(img, VTy) else z3.BoolVal(True))   # proved just above
+        _D_snoc(ex, F, pre, x.t)
+        ex.prove('C18:F(t) == D(t), step: flat(k + 1) == D(t[:k + 1])',
+                 T.ty_eq(fn(k + 1), F.FT(T.ty_concat(pre, z3.Unit(x.t)))))
+    ex.side(step)
+
+    def base():
+        _D_unit(ex, F)
+        ex.prove('C18:F(t) == D(t), base: flat(0) == D(())', T.ty_eq(fn(T.I(0)), F.FT(T.EMPTY)))
+    ex.side(base)
+
+
+_c = Contract('biclosed.Functor.__call__', params=_p_bfunctor_ty, ensures=_e_bfunctor_ty, property_ids=('C18', 'C04'))
+_c.label = 'biclosed.Functor.__call__[Ty]'
+CONTRACTS['biclosed.Functor.__call__[Ty]'] = _c
+
+
+# ---------------------------------------------------------------- rigid.Functor: objects with a winding number
+# The image of an object x = (name, z) is the z-fold adjoint of the image of the basic object (name, 0):
+#   IMG(x) = adjpow(F.ob[((name, 0),)], z),  adjpow(T, 0) = T,  adjpow(T, z - 1) = adjpow(T, z).l (z <= 0),  adjpow(T, z + 1) = adjpow(T, z).r (z >= 0)
+# (1) the local function `adjoint` of rigid.Functor.__call__ computes IMG(x) (two loops, invariant result == adjpow(B, -+k));
+# (2) the type branch computes D_r(t), the snoc-recursion over IMG, as for monoidal functors;
+# (3) lemmas: IMG(x.l) == IMG(x).l, IMG(x.r) == IMG(x).r (object level), and D_r(t.l) == D_r(t).l, D_r(t.r) == D_r(t).r by
+#     snoc-induction from (3, objects), the homomorphism lemma and the anti-homomorphism of adjoints.
+from pyvc.world import World      # noqa: E402
+from pyvc.interp import Interp      # noqa: E402
+
+
+def _rF():
+    F = VFunctor('F', ar_factory='rigid.Diagram')
+    return F
+
+
+def _base_img(ex, F, x):
+    """F.ob[((name x, 0),)]"""
+    b = T.mk_ob(T.ob_name(x), T.I(0))
+    ex.assume(T.ob_name(b) == T.ob_name(x))
+    ex.assume(T.ob_z(b) == 0)
+    return F.FT(z3.Unit(b))
+
+
+def _IMG(ex, F, x):
+    return T.adjpow(_base_img(ex, F, x), T.ob_z(x))
+
+
+def _adjpow_def(interp, B, z):
+    """the defining equations of adjpow at (B, z)"""
+    ex, w = interp.ex, interp.world
+    ex.assume(T.adjpow(B, T.I(0)) == B)
+    ex.assume(z3.Implies(z <= 0, T.adjpow(B, z - 1) == w.ty_adjoint(interp, T.adjpow(B, z), 'l')))
+    ex.assume(z3.Implies(z >= 0, T.adjpow(B, z + 1) == w.ty_adjoint(interp, T.adjpow(B, z), 'r')))
+
+
+def _p_adjoint_closure(ex):
+    F = _rF()
+    x = z3.Const('x', T.Ob)
+    ex._adj = (F, x)
+    return [VOb(x)], {}
+
+
+def _adj_loop(sign):
+    def assume(interp, env, k, seq, at_exit):
+        ex = interp.ex
+        F, x = ex._adj
+        B = _base_img(ex, F, x)
+        env.set('result', VTy(T.adjpow(B, sign * k), cls='rigid'))
+
+    def check(interp, env, k, label, seq):
+        ex = interp.ex
+        F, x = ex._adj
+        B = _base_img(ex, F, x)
+        _adjpow_def(interp, B, z3.simplify(sign * (k - 1)) if T.int_val(k) != 0 else T.I(0))
+        cur = env.lookup('result')
+        ex.prove(label + ':result is the %s-fold %s adjoint of the basic image' % ('k', 'left' if sign < 0 else 'right'),
+                 isinstance(cur, VTy) and T.ty_eq(cur.t, T.adjpow(B, sign * k)))
+    return LoopSpec(assume=assume, check=check)
+
+
+def _e_adjoint_closure(interp, args, kwargs, result):
+    ex = interp.ex
+    F, x = ex._adj
+    # L-ob: an object is determined by (name, z)
+    b = T.mk_ob(T.ob_name(x), T.I(0))
+    ex.assume(z3.Implies(T.ob_z(x) == 0, x == b))
+    B = _base_img(ex, F, x)
+    _adjpow_def(interp, B, T.I(0))
+    ex.prove('C04:the image of an object is the z-fold adjoint of the image of its basic object',
+             isinstance(result, VTy) and T.ty_eq(result.t, T.adjpow(B, T.ob_z(x))))
+
+
+_c = Contract('rigid.Functor.__call__.<locals>.adjoint', params=_p_adjoint_closure, ensures=_e_adjoint_closure,
+              loops={0: _adj_loop(-1), 1: _adj_loop(1)}, property_ids=('C04', 'C18', 'C01'))
+_c.closure_env = None      # set per path below (needs the functor of the path)
+CONTRACTS['rigid.Functor.__call__.<locals>.adjoint'] = _c
+
+
+def _closure_env_adjoint(ex):
+    F, x = ex._adj
+    t = VTy(z3.Const('diagram', T.TyS), cls='rigid')
+    return {'self': F, 'diagram': t}
+
+
+_c.closure_env_fn = _closure_env_adjoint
+
+
+def _abstract_adjoint(interp, args, kwargs):
+    """call-site contract of the local function: IMG(x)"""
+    ex = interp.ex
+    F = getattr(ex, '_cur_functor', None)
+    x = args[0]
+    if F is None or not isinstance(x, VOb):
+        raise Unsupported('adjoint(obj) outside the type branch of a rigid functor')
+    return VTy(_IMG(ex, F, x.t), cls='rigid')
+
+
+_c.abstract = _abstract_adjoint
+
+
+def _p_rfunctor_ty(ex):
+    ex.nth_by_parts = True
+    F = _rF()
+    t = VTy(z3.Const('t', T.TyS), cls='rigid')
+    ex._ft = (F, t)
+    ex._cur_functor = F
+    return [F, t], {}
+
+
+def _e_rfunctor_ty(interp, args, kwargs, result):
+    ex = interp.ex
+    F, t = ex._ft
+    n = T.ty_len(t.t)
+    flats = list(getattr(ex, '_flats', {}).values())
+    if not isinstance(result, VTy) or len(flats) != 1:
+        ex.prove('C04:F(type) is the flattening of one list of images', False)
+        return
+    fn, imgs, get = flats[0]
+    ex.prove('C04:F(t) is the flattening of the list of images', T.ty_eq(result.t, fn(imgs.length())))
+    ex.prove('C04:one image per object', imgs.length() == n)
+
+    def step():
+        k = T.fresh('k', T.IntS)
+        ex.assume(z3.And(0 <= k, k < n))
+        x = ex.ty_at(t, k)
+        img = get(k)
+        want = _IMG(ex, F, x.t)
+        ex.prove('C04:the k-th image is the z-fold adjoint of the basic image of the k-th object',
+                 isinstance(img, VTy) and T.ty_eq(img.t, want))
+        pre, suf = T.fresh('pre_k', T.TyS), T.fresh('suf_k', T.TyS)
+        ex.assume(t.t == T.ty_concat(pre, z3.Unit(x.t), suf))
+        ex.assume(z3.Length(pre) == k)
+        ex.assume(fn(k) == F.FT(pre))               # induction hypothesis
+        ex.flat_step(flats[0], k)
+        if isinstance(img, VTy):
+            ex.assume(T.ty_eq(img.t, want))         # proved just above
+        # D_r's defining equation at (pre, x), with IMG(x) for the image of the one-object type
+        ex.assume(F.FT(T.ty_concat(pre, z3.Unit(x.t))) == T.ty_concat(F.FT(pre), want))
+        ex.prove('C04:F(t) == D(t), step: flat(k + 1) == D(t[:k + 1])',
+                 T.ty_eq(fn(k + 1), F.FT(T.ty_concat(pre, z3.Unit(x.t)))))
+    ex.side(step)
+
+    def base():
+        _D_unit(ex, F)
+        ex.prove('C04:F(t) == D(t), base: flat(0) == D(())', T.ty_eq(fn(T.I(0)), F.FT(T.EMPTY)))
+    ex.side(base)
+
+
+_c = Contract('rigid.Functor.__call__', params=_p_rfunctor_ty, ensures=_e_rfunctor_ty, property_ids=('C04', 'C18', 'C01'))
+_c.label = 'rigid.Functor.__call__[Ty]'
+CONTRACTS['rigid.Functor.__call__[Ty]'] = _c
+
+
+def _ob_facts(ex, x, y, delta):
+    """y = x.l (delta -1) / x.r (delta +1): call-site contract of rigid.Ob.l / .r"""
+    ex.assume(T.ob_name(y) == T.ob_name(x))
+    ex.assume(T.ob_z(y) == T.ob_z(x) + delta)
+
+
+def _lemma_adjoint_object(side):
+    delta = -1 if side == 'l' else 1
+
+    def run(interp):
+        ex, w = interp.ex, interp.world
+        F = _rF()
+        x = z3.Const('x', T.Ob)
+        y = (T.ob_l if side == 'l' else T.ob_r)(x)
+        _ob_facts(ex, x, y, delta)
+        B = _base_img(ex, F, x)
+        By = _base_img(ex, F, y)            # same term: the basic object only depends on the name
+        z = T.ob_z(x)
+        _adjpow_def(interp, B, z)
+        _adjpow_def(interp, B, z + delta)
+        ex.prove('C04:IMG(x.%s) == IMG(x).%s' % (side, side),
+                 T.ty_eq(T.adjpow(By, T.ob_z(y)), w.ty_adjoint(interp, T.adjpow(B, z), side)))
+    return run
+
+
+def _lemma_adjoint_type(side):
+    def run(interp):
+        ex, w = interp.ex, interp.world
+        F = _rF()
+        s_, x = z3.Const('s', T.TyS), z3.Const('x', T.Ob)
+        y = (T.ob_l if side == 'l' else T.ob_r)(x)
+        adj = lambda t: w.ty_adjoint(interp, t, side)      # noqa: E731
+        _D_unit(ex, F)
+        ex.prove('C04:D(().%s) == D(()).%s   (base)' % (side, side), T.ty_eq(F.FT(adj(T.EMPTY)), adj(F.FT(T.EMPTY))))
+        # step: t = s ++ (x,)
+        ux, uy = z3.Unit(x), z3.Unit(y)
+        ex.assume(adj(ux) == uy)                                       # rigid.Ty.l / .r on a one-object type (pointwise contract)
+        t = T.ty_concat(s_, ux)
+        ex.assume(F.FT(adj(s_)) == adj(F.FT(s_)))                       # induction hypothesis at s
+        ex.assume(F.FT(uy) == adj(F.FT(ux)))                            # lemma functor.adjoint.object
+        ex.assume(F.FT(T.ty_concat(uy, adj(s_))) == T.ty_concat(F.FT(uy), F.FT(adj(s_))))   # lemma functor.homomorphism
+        ex.assume(F.FT(t) == T.ty_concat(F.FT(s_), F.FT(ux)))           # defining equation of D at (s, x)
+        lhs = F.FT(adj(t))              # adj(t) is instantiated as adj(ux) ++ adj(s) by ty_adjoint (anti-homomorphism lemma)
+        rhs = adj(F.FT(t))
+        ex.assume(rhs == adj(T.ty_concat(F.FT(s_), F.FT(ux))))
+        ex.prove('C04:D((s ++ (x,)).%s) == D(s ++ (x,)).%s   (step)' % (side, side), T.ty_eq(lhs, rhs))
+    return run
+
+
+for _s in ('l', 'r'):
+    lemma('functor.adjoint.object.' + _s, _lemma_adjoint_object(_s), ('C04', 'C18'))
+    lemma('functor.adjoint.type.' + _s, _lemma_adjoint_type(_s), ('C04', 'C18'))
